@@ -12,6 +12,8 @@ for name in sorted(os.listdir(os.path.join(HERE, "seeded"))):
     first = (m.get("what_it_does", "") + " -- needs: " + m.get("needs_to_manifest", "")).replace("|", "/")
     viol = (m.get("violations_reported") or [{}])[0].get("detail", "")
     viol = re.sub(r"\|", "/", viol)[:150]
-    det = "yes" if m.get("detected") else ("NO (exit %s)" % m.get("check_exit_code"))
+    det = "yes" if m.get("detected") else ("first run: NO (exit %s)%s" % (m.get("check_exit_code"), "; after strengthening: yes" if m.get("detected_after_strengthening") else ""))
+    if not m.get("detected") and m.get("violations_after_strengthening"):
+        viol = m["violations_after_strengthening"][0]["detail"].replace("|", "/")[:150]
     hist = re.sub(r"\|", "/", m.get("history", ""))[:260]
     print(f"| {name} | {m.get('property')} | {first} | {det}: {viol} | {hist} |")
